@@ -4,7 +4,7 @@ from gvc.native.nat import *
 import jax.random as random
 
 
-def one(D, keysets, ndev, L, B, seed):
+def one(D, keysets, ndev, L, B, seed, history=False):
     sp = [2, 3, 2][:D]
     mis = []
     for j, ks in enumerate(keysets):
@@ -17,8 +17,17 @@ def one(D, keysets, ndev, L, B, seed):
         mis.append((blocks, make_mi(blocks, [tuple(k) for k in ks], D, True)))
     key = None if seed is None else random.PRNGKey(seed)
     devices = ["d"] * ndev
+    if history:
+        # the same container objects were batched before with other contents (reversed sample order) and then updated in place
+        for blocks, mi_ in mis:
+            for k in blocks:
+                mi_[k] = jnp.array(blocks[k][::-1])
+        ml.get_batches(tuple(m for _, m in mis) if len(mis) > 1 else mis[0][1], B, key, devices)
+        for blocks, mi_ in mis:
+            for k in blocks:
+                mi_[k] = jnp.array(blocks[k])
     res = ml.get_batches(tuple(m for _, m in mis) if len(mis) > 1 else mis[0][1], B, key, devices)
-    call = f"get_batches D={D} keysets={keysets} devices={ndev} L={L} B={B} seed={seed}"
+    call = f"get_batches D={D} keysets={keysets} devices={ndev} L={L} B={B} seed={seed}" + (" after an earlier call on the same objects and an in-place update" if history else "")
     if len(res) != len(mis):
         return f"{len(res)} lists for {len(mis)} multi-images", call
     nb = L // B
@@ -50,7 +59,7 @@ def from_req(req, L=None, B=None, seed=0):
     ndev = req["ndev"]
     B = B or ndev * ext(m, "m", 2, 3)
     L = L or max(B, ext(m, "L", 2 * B + 1, 13))
-    return one(req["D"], req["keysets"], ndev, L, B, seed if req.get("shuffled") else None)
+    return one(req["D"], req["keysets"], ndev, L, B, seed if req.get("shuffled") else None, history=bool(req.get("history")))
 
 
 def replay(req):
